@@ -214,7 +214,7 @@ def _inst_shape(n_generic, n_port, arch=("compiled", "arch_E", "arch_E")):
 
     def make(env):
         ent = SObj(VR.Entity, _name="E", _arch_name=declared, _path="work", _ports={f"p{i}": object() for i in range(n_port)}, _generics={}, _extern=kind == "extern",
-                   _arch=None if kind == "extern" else SObj(VR.Architecture, f_written=written))
+                   _arch=None if kind == "extern" else SObj(VR.Architecture, f_written=written, f_requested=declared))
         return SObj(VR.EntityInst, _entity=ent, _ports={f"p{i}": object() for i in range(n_port)}, _generics={}, _scope=SObj(VhdlScope), f_g=n_generic, f_p=n_port)
 
     return Built([], make, lambda a: "None", lambda a: None)
@@ -230,6 +230,7 @@ for n_generic, n_port, arch in [(0, 0, ARCH_VARIANTS[0]), (0, 2, ARCH_VARIANTS[0
     c.native = False
     c.models = [
         (VR.Architecture.__dict__["arch_name"], lambda it, self: self.fields["f_written"]),
+        (VR.Architecture.__dict__["name"], lambda it, self: self.fields["f_requested"]),  # the REQUESTED name (arch_name attribute / default)
         (VR.EntityInst.__dict__["_generic_map"], lambda it, self: []),
         (VR.EntityInst.__dict__["_port_map"], lambda it, self: (["port map("] + [f"p{i}" for i in range(self.fields["f_p"])] + [");"]) if self.fields["f_p"] else []),
         (VhdlScope.__dict__["format_value"], lambda it, self, obj, *a, **k: "<actual>"),
@@ -323,3 +324,8 @@ def replay_text(payload):
 
     rc, out = _run_design(_TEXT_DESIGN)
     return {"reproduced": rc == 0 and "ILLEGAL" in out, "detail": out[-400:]}
+
+
+# C12 ("instantiating a sub-entity ... behaves identically to placing its logic inline"): the instantiation statement must name the
+# architecture that is actually written for the entity
+contract(VRM + "EntityInst.write", ("C12",))
